@@ -315,6 +315,34 @@ theorem header_flag_consumed (d : Dialect) (t : ATy) (p : FP) (bs rest : Bytes)
   · cases hf; exact c0
   · cases ha
 
+theorem headerBody_inner_length (t : ATy) (p : FP) (bs : Bytes) (tl0 : TL) (r2 : Bytes) (o : Option (Nat × Nat))
+    (tl : TL) (utag : Nat) (inner rest consumed : Bytes) (outer : Option (Nat × Nat))
+    (h : headerBody t p bs tl0 r2 o = .ok (.body tl utag inner rest consumed outer)) :
+    inner.length = tl.len ∧ tl = tl0 ∧ inner = r2.take tl0.len ∧ rest = r2.drop tl0.len ∧ tl0.len ≤ r2.length ∧ tagMismatch t p tl0 = false ∧
+      utag = utagOf t p tl0 ∧ outer = o := by
+  unfold headerBody at h
+  by_cases hm : tagMismatch t p tl0 = true
+  · rw [if_pos hm] at h; unfold headerMiss at h; split at h <;> cases h
+  · rw [if_neg hm] at h
+    by_cases hl : tl0.len > r2.length
+    · rw [if_pos hl] at h; cases h
+    · rw [if_neg hl] at h
+      simp only [Except.ok.injEq, Hdr.body.injEq] at h
+      obtain ⟨rfl, rfl, rfl, rfl, rfl, rfl⟩ := h
+      exact ⟨by simp; omega, rfl, rfl, rfl, by omega, by simpa using hm, rfl, rfl⟩
+
+/-- **every slice is in range**: the content slice `bytes[offset : offset+t.length]` that `parseField` takes has exactly the
+declared length (the `take` of the model does not truncate), on every path through explicit tags -/
+theorem header_inner_length (d : Dialect) (t : ATy) (p : FP) (bs : Bytes) (tl : TL) (utag : Nat) (inner rest consumed : Bytes)
+    (outer : Option (Nat × Nat)) (h : header d t p bs = .ok (.body tl utag inner rest consumed outer)) :
+    inner.length = tl.len := by
+  obtain ⟨tl0, r1, _, hc⟩ := header_cases d t p bs _ h
+  rcases hc with hb | ⟨tl1, r2, _, hb⟩ | hf | ha
+  · exact (headerBody_inner_length _ _ _ _ _ _ _ _ _ _ _ _ hb).1
+  · exact (headerBody_inner_length _ _ _ _ _ _ _ _ _ _ _ _ hb).1
+  · cases hf
+  · cases ha
+
 theorem parseAny_consumed (d : Dialect) (lax : Bool) (bs : Bytes) (v : AVal) (rest : Bytes)
     (h : parseAny d lax bs = .ok (v, rest)) : Consumed bs rest 2 := by
   unfold parseAny at h
